@@ -33,6 +33,7 @@ def main(argv):
     ap.add_argument("--workers", type=int)
     ap.add_argument("--digests", type=int)
     ap.add_argument("--one", type=int, help="run a single run index verbosely")
+    ap.add_argument("--minimise", help="minimise a replay file with every candidate in a forked pristine child")
     a = ap.parse_args(argv)
     from . import core
 
@@ -43,9 +44,12 @@ def main(argv):
             print(f"HARNESS-ERROR: no profile for {a.prop}")
             return 2
         prof = table[a.prop]()
+        if a.minimise:
+            return core.minimise_isolated(prof, a.minimise)
         if a.replay:
             return core.replay_file(prof, a.replay)
         if a.one is not None:
+            prof.deep = a.tier == "thorough"
             r = core.generate_run(prof, a.seed, a.one)
             print("config:", r.config)
             for o, oc in zip(r.ops, r.outcomes):
@@ -55,7 +59,7 @@ def main(argv):
             print(dict(r.stats.c))
             return 1 if r.violation else 0
         if a.digests:
-            return core.run_check(prof, "quick", a.seed, runs=a.digests, workers=a.workers or 1, digests_only=True)
+            return core.run_check(prof, a.tier if a.tier in ("quick", "thorough") else "quick", a.seed, runs=a.digests, workers=a.workers or 1, digests_only=True)
         tier = a.tier if a.tier in ("quick", "thorough") else "quick"
         return core.run_check(prof, tier, a.seed, runs=a.runs, workers=a.workers)
     except Exception:
